@@ -254,7 +254,8 @@ pub fn analyse_source(id: &str, class: &str, src: &str) -> J {
 fn decorate(rng: &mut Rng, src: &str) -> String {
     // random line breaks, multi-byte and astral characters before and between tokens (only at
     // places where they are plain text / whitespace)
-    let fill = ["\n", "\n\n", "汉", "\u{1f600}", "é\n", "\u{1f600}\u{1f600} ", "\r\n", "  "];
+    // (a comment that spans lines and ends on a line with astral characters: the parser skips it in one step)
+    let fill = ["\n", "\n\n", "汉", "\u{1f600}", "é\n", "\u{1f600}\u{1f600} ", "\r\n", "  ", "<!-- c\n\u{1f600}\u{1f600} -->", "<!--\n\n汉\u{1f600}-->"];
     let mut out = String::new();
     out.push_str(*rng.pick(&fill[..]));
     let mut depth_tag = false;
@@ -312,7 +313,7 @@ pub fn run_locs(tier: &str, seed: u64, out: &mut Out) {
     let bad = crate::total::inputs(if tier == "thorough" { "quick" } else { "quick" }, seed);
     let step = if tier == "thorough" { 1 } else { 4 };
     for (k, (kind, src)) in bad.iter().enumerate() {
-        if kind != "tmpl" || k % step != 0 {
+        if kind != "tmpl" || (k % step != 0 && k >= 150) {
             continue;
         }
         let r = catch(std::panic::AssertUnwindSafe(|| analyse_source(&format!("f{}", k), "fuzzed", src)));
@@ -365,11 +366,13 @@ fn inject(rng: &mut Rng, src: &str) -> Vec<(&'static str, String, u32, u8)> {
     // the defect is placed at the start, at the end, or nested inside a wrapper / conditional / loop
     // at the start or the end of a large well-formed template
     let insert_at = |rng: &mut Rng, piece: &str| -> String {
-        let wrapped = match rng.below(5) {
+        let wrapped = match rng.below(8) {
             0 => piece.to_string(),
             1 => format!("<view class=\"w\">{}</view>", piece),
             2 => format!("<block wx:if=\"{{{{ a }}}}\">{}</block>", piece),
             3 => format!("<view wx:for=\"{{{{ l }}}}\"><text>t</text>{}</view>", piece),
+            5 => format!("<!-- multi\nline \u{1f600}\u{1f600} -->{}", piece),
+            6 => format!("<wxs module=\"zz8\">var a = 1\n// \u{1f600}</wxs>{}", piece),
             _ => format!("<view>\n  汉\u{1f600}\n  {}\n</view>", piece),
         };
         if rng.chance(1, 2) {
@@ -384,6 +387,17 @@ fn inject(rng: &mut Rng, src: &str) -> Vec<(&'static str, String, u32, u8)> {
     v.push(("unterminated binding at end of input", format!("{}<view>{{{{ a + b", src), code(K::MissingExpressionEnd), 4));
     v.push(("trailing garbage in a binding", insert_at(rng, "<view a=\"{{ a b }}\"/>"), code(K::UnexpectedExpressionCharacter), 4));
     v.push(("trailing garbage in a binding (#)", insert_at(rng, "<view>{{ a.b # }}</view>"), code(K::UnexpectedExpressionCharacter), 4));
+    // object-shaped bindings (template data, or any binding that starts like an object body)
+    v.push(("trailing garbage after a shorthand field", insert_at(rng, "<template is=\"t\" data=\"{{ a, b c }}\"/>"), code(K::UnexpectedExpressionCharacter), 4));
+    v.push(("trailing garbage after a shorthand field (text)", insert_at(rng, "<view>{{ a, b c }}</view>"), code(K::UnexpectedExpressionCharacter), 4));
+    v.push(("trailing garbage after a named field", insert_at(rng, "<template is=\"t\" data=\"{{ a: 1, b: 2 c }}\"/>"), code(K::UnexpectedExpressionCharacter), 4));
+    v.push(("trailing garbage after a spread", insert_at(rng, "<template is=\"t\" data=\"{{ ...a b }}\"/>"), code(K::UnexpectedExpressionCharacter), 4));
+    v.push(("trailing garbage after a single shorthand field", insert_at(rng, "<template is=\"t\" data=\"{{ a b }}\"/>"), code(K::UnexpectedExpressionCharacter), 4));
+    v.push(("trailing garbage after a comment in a binding", insert_at(rng, "<view a=\"{{ a /* x\n\u{1f600} */ b }}\"/>"), code(K::UnexpectedExpressionCharacter), 4));
+    v.push(("trailing garbage in an index", insert_at(rng, "<view a=\"{{ a[b c] }}\"/>"), code(K::UnexpectedExpressionCharacter), 4));
+    v.push(("trailing garbage in call arguments", insert_at(rng, "<view a=\"{{ f(a b) }}\"/>"), code(K::UnexpectedExpressionCharacter), 4));
+    v.push(("trailing garbage in an array literal", insert_at(rng, "<view a=\"{{ [a b] }}\"/>"), code(K::UnexpectedExpressionCharacter), 4));
+    v.push(("trailing garbage in an object literal", insert_at(rng, "<view a=\"{{ ({x: a b}) }}\"/>"), code(K::UnexpectedExpressionCharacter), 4));
     v.push(("unknown wx: directive", insert_at(rng, "<view wx:foo=\"1\"/>"), code(K::InvalidAttributePrefix), 2));
     v.push(("unknown attribute prefix", insert_at(rng, "<view foo:bar=\"1\"/>"), code(K::InvalidAttributePrefix), 2));
     v.push(("too many name segments", insert_at(rng, "<view a:b:c=\"1\"/>"), code(K::InvalidAttributePrefix), 2));
